@@ -19,10 +19,10 @@ Print Assumptions C12_get_online.
 Theorem C12_get_offline :
   forall (VS : Val) (AR : Arith VS) (pk : formula -> formula -> pkind) (w : trace) (n : nat) (F : list formula),
     1 <= n ->
-    (forall p, In p F -> wf_bounds p = true /\ no_precedes p = true /\ wf_trace p w n) ->
+    (forall p, In p F -> wf_bounds p = true /\ wf_trace p w n) ->
     map (fun p => eval_off AR pk p w n) F = map (fun p => tab (rho AR pk p w n) n) F.
 Proof.
-  intros VS AR pk w n F Hn HF. apply map_ext_in. intros p Hp. destruct (HF p Hp) as (H1 & H2 & H3).
+  intros VS AR pk w n F Hn HF. apply map_ext_in. intros p Hp. destruct (HF p Hp) as (H1 & H3).
   apply eval_off_correct; assumption.
 Qed.
 Print Assumptions C12_get_offline.
